@@ -3,7 +3,7 @@
    line.py, _stream.py; tied to /repo by harness/c01.py).  The inner one-shot codec (enc, dec) is arbitrary. *)
 From Coq Require Import List Arith.
 From EN Require Import Lib.Bytes Frame.Framer Frame.ReadUntil Frame.BufReadUntil Stream.Consumer Stream.SpecDecode
-  Frame.Serialize Proofs.C01_proofs Proofs.Fixed_proofs Proofs.Serialize_proofs.
+  Frame.Serialize Proofs.C01_proofs Proofs.Fixed_proofs Proofs.BufFixed_proofs Proofs.Serialize_proofs.
 Import ListNotations.
 
 (* Copying consumer (StreamDataConsumer over read_until): for EVERY list of packets valid for the codec, EVERY way of
@@ -82,6 +82,25 @@ Proof.
   exists c'. split; [exact Hd|]. split; [inversion Hc'; reflexivity | apply fx_tail_short; exact Hs].
 Qed.
 Print Assumptions fixed_size_chunk_independent.
+
+(* Fixed-size framing on the buffer-filling path (FixedSizePacketSerializer.buffered_incremental_deserialize under
+   BufferedStreamDataConsumer): ANY byte stream, every sequence of recv_into fills (non-empty, fitting the exported view),
+   every size hint: events = record-by-record decoding, fewer than [size] bytes kept. *)
+Theorem fixed_size_buffered_chunk_independent :
+  forall (P : Type) (size sizehint : nat) (dec : decoder P),
+    1 <= size ->
+    forall (fills : list bytes) (fuel : nat),
+      length (concat fills) < fuel ->
+      fills_fit (bfx_framer size dec) sizehint fuel (bcinit _) fills ->
+      exists c', bcfills (bfx_framer size dec) sizehint fuel (bcinit _) fills = (c', fst (fx_events size dec (concat fills))) /\
+                 length (snd (fx_events size dec (concat fills))) < size.
+Proof.
+  intros P size sizehint dec Hs fills fuel Hf Hfit.
+  destruct (bfx_fills_spec size dec sizehint Hs fuel fills (bcinit _) []
+              (frep_idle size dec sizehint None 0 I) Hfit Hf) as (c' & Hd & Hc').
+  exists c'. split; [exact Hd | apply fx_tail_short; exact Hs].
+Qed.
+Print Assumptions fixed_size_buffered_chunk_independent.
 
 (* Non-vacuity: a concrete codec meets valid_pkt for every packet within the bound, and a 3-packet stream cut inside
    the separator is delivered. *)
